@@ -369,6 +369,7 @@ func runCase(e *env, in input, caseNo int, out *tlaio.Out, id string, detail int
 			f.set(true, "parexec:state-hash-differs", fmt.Sprintf("state hash after concurrent execution (level %d) differs from the sequential executor's", in.Level))
 		}
 	}
+	pr.s.setFree() // goroutines that outlive a failed block must not stay parked at a gate
 	// (3) a free-running execution with seeded random delays, recorded for Trace_ParallelExec
 	fr, fres := runFree(e, in, in.Level, h+2, &f, rand.New(rand.NewSource(in.Salt+int64(caseNo))))
 	if fres != "" {
